@@ -165,6 +165,8 @@ func (m *Module) startCtrlFn(name string, fn func() error) chan error {
 
 	// Start control function in goroutine.
 	go func() {
+		var err error
+
 		// Recover from panic and reset control function signal.
 		defer func() {
 			// recover from panic
@@ -172,17 +174,18 @@ func (m *Module) startCtrlFn(name string, fn func() error) chan error {
 			if panicVal != nil {
 				me := m.NewPanicError(name, "module-control", panicVal)
 				me.Report()
-				ctrlFnError <- fmt.Errorf("panic: %s", panicVal)
+				err = fmt.Errorf("panic: %s", panicVal)
 			}
 
-			// Signal finish.
+			// Signal finish before handing over the result, so that this
+			// goroutine cannot reset the signal of a later control function.
 			m.ctrlFuncRunning.UnSet()
+			ctrlFnError <- err
 			m.checkIfStopComplete()
 		}()
 
-		// Run control function and report error.
-		err := fn()
-		ctrlFnError <- err
+		// Run control function.
+		err = fn()
 	}()
 
 	return ctrlFnError
